@@ -14,3 +14,13 @@ open Rpylib.Stats
 #print axioms cv_stderr_le_raw_one_control
 #print axioms covB_combo_left
 #print axioms cv_var_le_raw_normal_equations
+#print axioms adjustK_mean
+#print axioms cv_mean_identity_vec
+#print axioms adjustVec_mean
+#print axioms adjustVec_component_local
+#print axioms cov_collinear
+#print axioms kernel2_normal_equations
+#print axioms cv_var_le_raw_two_controls
+#print axioms cv_var_le_raw_vec
+#print axioms adjustVecRow_eq
+#print axioms adjustVecRow_length
